@@ -814,6 +814,124 @@ func (w *world) runSequence(nops int, changeMargins bool) {
 // pipeline: frames are built by some goroutines and checked and released by others (the link reader builds, a
 // handler worker releases), all on one builder, so released buffers are picked up by another goroutine at once.
 // A frame's content must be what its builder wrote when the releasing side looks at it.
+// callerBuffers: frames parsed straight out of a buffer the caller owns (no pooled slice handed over - what a
+// test, a tool or a handshake step does): several frames lie back to back in one receive buffer, whose capacity is
+// anything, including exactly the size of a buffer class of the builder. Releasing one of those frames changes
+// neither its neighbours nor the caller's buffer, and the caller's buffer never becomes the builder's: frames built
+// afterwards keep their content while the caller reuses its buffer.
+func callerBuffers(res *core.Result, r *rand.Rand, rounds int) {
+	b := frame.NewFrameBuilder()
+	b.SetFrameMargins(12, 16)
+	tiers := []int{600, 1600, 5100, 9600, 65675}
+	src, dst := netip.MustParseAddr("fd5a::1"), netip.MustParseAddr("fd5b::2")
+	image := func(msgN int) []byte {
+		mt := msgTypes[r.IntN(len(msgTypes))]
+		auth := 64
+		if mt.IsEncrypted() {
+			auth = 16
+		}
+		img := make([]byte, 0, 51+msgN+auth)
+		img = append(img, 1, byte(1+r.IntN(255)), 0, 0, byte(mt))
+		img = append(img, core.RandBytes(r, 11)...)
+		a := src.As16()
+		img = append(img, a[:]...)
+		a = dst.As16()
+		img = append(img, a[:]...)
+		img = append(img, 0, byte(msgN>>8), byte(msgN))
+		img = append(img, core.RandBytes(r, msgN+auth)...)
+		return img
+	}
+	for round := 0; round < rounds; round++ {
+		tier := tiers[r.IntN(len(tiers))]
+		capBuf := tier
+		if r.IntN(3) == 0 {
+			capBuf = tier - 1 - r.IntN(50)
+		}
+		buf := make([]byte, capBuf)
+		for i := range buf {
+			buf[i] = 0xA5
+		}
+		n := 2 + r.IntN(3)
+		each := min((capBuf-8)/n, 1200)
+		type held struct {
+			f    frame.Frame
+			img  []byte
+			a, z int
+			auth int
+		}
+		var hs []held
+		pos := 0
+		for i := 0; i < n; i++ {
+			img := image(max(1, each-140-r.IntN(20)))
+			copy(buf[pos:], img)
+			f, err := b.ParseFrame(buf[pos:pos+len(img)], nil, 0)
+			if err != nil {
+				res.Violate("caller-buffer:parse-failed", fmt.Sprintf("ParseFrame of a valid %d-byte frame lying in the caller's buffer failed: %v", len(img), err), map[string]any{"case_id": "caller-buffers"})
+				return
+			}
+			auth := 64
+			if frame.MessageType(img[4]).IsEncrypted() {
+				auth = 16
+			}
+			hs = append(hs, held{f, img, pos, pos + len(img), auth})
+			pos += len(img)
+		}
+		want := append([]byte(nil), buf...)
+		desc := fmt.Sprintf("%d frames parsed (no pooled slice) out of one receive buffer of capacity %d", n, capBuf)
+		order := r.Perm(n)
+		for k, i := range order {
+			hs[i].f.ReturnToPool()
+			for _, j := range order[k+1:] {
+				// (a frame without pooled slice has no margins to report: its message and the bytes it lies in are read)
+				msgWant := hs[j].img[51 : len(hs[j].img)-hs[j].auth]
+				if d := hs[j].f.MessageData(); !bytes.Equal(d, msgWant) || !bytes.Equal(buf[hs[j].a:hs[j].z], hs[j].img) || hs[j].f.SrcIP() != src || hs[j].f.DstIP() != dst {
+					res.Violate("frame-changed-by-release-of-another:caller-buffer", fmt.Sprintf("%s: after frame %d was released, frame %d no longer carries its message or addresses (message differs at %d of %d)", desc, i, j, firstDiff(d, msgWant), len(msgWant)), map[string]any{"case_id": "caller-buffers"})
+					return
+				}
+			}
+			if !bytes.Equal(buf, want) {
+				res.Violate("callers-buffer-changed-by-release", fmt.Sprintf("%s: releasing frame %d changed the caller's buffer", desc, i), map[string]any{"case_id": "caller-buffers"})
+				return
+			}
+		}
+		// new frames of that size class come alive; the caller reuses its buffer
+		var fresh []frame.Frame
+		var imgs [][]byte
+		for i := 0; i < 6; i++ {
+			msg := core.RandBytes(r, max(1, min(tier, 9990)-200-r.IntN(30)))
+			f, err := b.NewFrameV1(src, dst, frame.RouterPing, nil, msg, nil)
+			if err != nil {
+				continue
+			}
+			d, _ := f.FrameDataWithMargins(0, 0)
+			fresh = append(fresh, f)
+			imgs = append(imgs, append([]byte(nil), d...))
+		}
+		for i := range buf {
+			buf[i] = 0xEE
+		}
+		for i, f := range fresh {
+			d, err := f.FrameDataWithMargins(0, 0)
+			if err != nil || !bytes.Equal(d, imgs[i]) {
+				res.Violate("frame-built-in-callers-buffer", fmt.Sprintf("%s, all released; a frame built afterwards changed when the caller reused its own buffer", desc), map[string]any{"case_id": "caller-buffers"})
+				return
+			}
+			f.ReturnToPool()
+		}
+		res.Count("caller_buffer_rounds", 1)
+	}
+	res.Case(fmt.Sprintf("caller-buffers|%d", rounds), true)
+}
+
+func firstDiff(a, b []byte) int {
+	for i := 0; i < len(a) && i < len(b); i++ {
+		if a[i] != b[i] {
+			return i
+		}
+	}
+	return min(len(a), len(b))
+}
+
 func pipeline(res *core.Result, r *rand.Rand, frames int, keyPrefix string) {
 	b := frame.NewFrameBuilder()
 	b.SetFrameMargins(12, 16)
@@ -989,6 +1107,9 @@ func run(c *core.Ctx) {
 	for i := 0; i < c.Q(8, 100); i++ {
 		pipeline(res, core.RNG(fmt.Sprintf("c17/pipeline/%d", i)), 30000, "")
 		pipelineTiers(res, fmt.Sprintf("c17/tier/%d", i), 40000, "")
+	}
+	for i := 0; i < c.Q(4, 40); i++ {
+		callerBuffers(res, core.RNG(fmt.Sprintf("c17/callerbuf/%d", i)), c.Q(150, 1500))
 	}
 	nseq := c.Q(3000, 200000)
 	const W = 16
